@@ -184,6 +184,61 @@ def rand_script(r, lay, npeers):
     return " ".join(ops)
 
 
+def mix_script(r, npeers, roles):
+    """Second stream: 3-4 peers with fixed roles (h honest, c corrupting, k choking, d disconnecting) interleaved block by
+    block: partial blocks, take-overs, chokes with and without the 6 s timeout, disconnects mid-block, un-waited verdicts."""
+    ops, mid = [], [False] * npeers
+    gone = [False] * npeers
+    for _ in range(r.randint(12, 30)):
+        p = r.randrange(npeers)
+        if gone[p]:
+            continue
+        role, k = roles[p], r.random()
+        if mid[p]:
+            if role == "d" and k < 0.35:
+                ops.append(r.choice(["X:%d", "R:%d"]) % p); gone[p] = True; mid[p] = False
+            elif k < 0.8:
+                n = r.choice([1, 2, 63, 64, 65, 1000, 8000, 16383, 100000])
+                ops.append("M:%d:%d" % (p, n))
+                if n == 100000:
+                    mid[p] = False
+            else:
+                ops.append("T:%d" % r.choice([1, 3, 31, 61]))
+            continue
+        if role == "k" and k < 0.3:
+            ops.append("K:%d" % p)
+            ops.append("T:%d" % r.choice([1, 5, 7, 65]))
+            if r.random() < 0.8:
+                ops.append("N:%d" % p)
+        elif role == "d" and k < 0.12:
+            ops.append(r.choice(["X:%d", "R:%d"]) % p); gone[p] = True
+        elif k < 0.5:
+            ops.append("B:%d:%d" % (p, r.choice([0, 1, 2, 63, 64, 100, 2047, 5000, 8192, 16383])))
+            mid[p] = True
+        elif k < 0.85:
+            ops.append("P:%d" % p if r.random() < 0.85 else "P:%d:%d" % (p, r.randint(1, 2)))
+        elif k < 0.9:
+            ops.append(r.choice(["Z:%d" % p, "S:%d:%d" % (p, r.choice([1, 16385])), "U:%d:0:0:64" % p]))
+        elif k < 0.96:
+            ops.append("W")
+        else:
+            ops.append("T:%d" % r.choice([1, 31, 125]))
+    ops += ["W", "F:14"]
+    return " ".join(ops)
+
+
+def mix_peers(r, npeers):
+    roles = ["h", "c", r.choice(["k", "d"])] + [r.choice(["h", "c", "k", "d"]) for _ in range(npeers - 3)]
+    r.shuffle(roles)
+    modes = []
+    for ro in roles:
+        if ro == "c":
+            modes.append("%d%s" % (r.randint(1, 9), r.choice(["a", "e", "o", "k1", "k2"])))
+        else:
+            modes.append("0a" + ("i" if ro == "k" and r.random() < 0.5 else ""))
+    return roles, modes
+
+
 def rand_peers(r, n):
     out = []
     for _ in range(n):
@@ -233,6 +288,15 @@ def gen(seed, tier):
         rc = r.choice([0, 0, 0, 1, 5, 13, 64, 1000])
         cases.append(header(lay, r.randint(1, 50), rc, peers) + " | " + rand_script(r, lay, npeers))
         fam["random"] = fam.get("random", 0) + 1
+    # second stream (thorough): 3-4 peers with mixed roles, every read segmentation in turn
+    if tier != "quick":
+        segs = [0, 1, 5, 13, 64, 100, 1000, 4096]
+        for i in range(1600):
+            lay = LAYOUTS[[2, 3, 4, 5, 0, 1, 6, 7][(i // 8) % 8]]
+            npeers = 3 + (i % 2)
+            roles, modes = mix_peers(r, npeers)
+            cases.append(header(lay, r.randint(1, 60), segs[i % 8], modes) + " | " + mix_script(r, npeers, roles))
+            fam["mix"] = fam.get("mix", 0) + 1
     # dissimilar sweep: leader position x differing byte position (block of 16384 or 2048)
     sweep = [(2, n, v) for n in ((1, 8191, 8192, 8193) if tier == "quick" else (1, 2, 100, 8190, 8191, 8192, 8193, 16382, 16383)) for v in (1, 2, 3)]
     for li, n, v in sweep:
